@@ -220,9 +220,10 @@ class LiftGen:
         if rnd.random() < 0.7:
             ty("TypeStruct", [Op("w", idr, rnd.choice(types)) for _ in range(rnd.randrange(0, 3))], "struct")
         if rnd.random() < 0.6:
+            # (the composite's type is any declared composite type — vector, matrix, array, struct: the lifted constant does not depend on it)
             members = [rnd.choice(consts) for _ in range(rnd.randrange(1, 4))]
             rid = fresh()
-            insts.append(Inst(g.opv["ConstantComposite"], "ConstantComposite", tvec, rid, [Op("w", idr, m) for m in members]))
+            insts.append(Inst(g.opv["ConstantComposite"], "ConstantComposite", rnd.choice([t_ for t_ in types if type_kind[t_] in ("vec", "mat", "arr", "struct")]), rid, [Op("w", idr, m) for m in members]))
             cexp.append("Composite{0=[%s]}" % ";".join("t%d" % consts.index(m) for m in members))
             consts.append(rid)
             # constants declared *after* a composite (declaration order is the order of the lifted constants whatever their form),
@@ -234,7 +235,7 @@ class LiftGen:
                     const(tfloat, 0x40000000, "Float{0=%d}" % 0x40000000)
                 members = [rnd.choice(consts) for _ in range(rnd.randrange(1, 4))]
                 rid = fresh()
-                insts.append(Inst(g.opv["ConstantComposite"], "ConstantComposite", tvec, rid, [Op("w", idr, m) for m in members]))
+                insts.append(Inst(g.opv["ConstantComposite"], "ConstantComposite", rnd.choice([t_ for t_ in types if type_kind[t_] in ("vec", "mat", "arr", "struct")]), rid, [Op("w", idr, m) for m in members]))
                 cexp.append("Composite{0=[%s]}" % ";".join("t%d" % consts.index(m) for m in members))
                 consts.append(rid)
                 if rnd.random() < 0.7:
